@@ -315,4 +315,22 @@ theorem getPath_one {j v : Json} {k : Str} (h : getPath j [k] = some v) :
   | str x => cases h
   | arr xs => cases h
 
+/-! ## sessions -/
+
+/-- a call that neither reads nor writes the instance state makes a session the map of the independent calls -/
+theorem session_stateless {σ α β : Type} (call : σ → α → σ × β) (f : α → β) (h : ∀ s a, call s a = (s, f a)) :
+    ∀ (s : σ) (cs : List α), session call s cs = cs.map f := by
+  intro s cs
+  induction cs generalizing s with
+  | nil => rfl
+  | cons a rest ih => simp only [session, h, List.map_cons, ih]
+
+/-- results of a session whose state does not influence the result component -/
+theorem session_result_indep {σ α β γ : Type} (call : σ → α → σ × (β × γ)) (f : α → β)
+    (h : ∀ s a, (call s a).2.1 = f a) : ∀ (s : σ) (cs : List α), (session call s cs).map (·.1) = cs.map f := by
+  intro s cs
+  induction cs generalizing s with
+  | nil => rfl
+  | cons a rest ih => simp only [session, List.map_cons, h, ih]
+
 end JsonFast
